@@ -739,6 +739,35 @@ impl<'g> Cx<'g> {
         }
     }
 
+    /// a one-parameter closure `|pat| body` over elements of type `et`: (Lean pattern, statements of the body, value, type).
+    /// The closure may not assign outer variables nor leave the enclosing fn.
+    pub fn closure1(&mut self, clos: &syn::Expr, et: &Ty, exp: Option<&Ty>) -> R<(String, Vec<Stmt>, String, Ty)> {
+        let (cpat, body) = match clos {
+            syn::Expr::Closure(c) if c.inputs.len() == 1 && c.capture.is_none() => (&c.inputs[0], &*c.body),
+            o => return self.bail(o.span(), "only simple closures `|x| expr` are supported here"),
+        };
+        let mut cp: &syn::Pat = cpat;
+        while let syn::Pat::Reference(pr) = cp {
+            cp = &pr.pat;
+        }
+        let (lp, binds) = self.pat(cp, et)?;
+        for (n, _) in &binds {
+            self.check_local_name(n, clos.span())?;
+        }
+        if !self.assigned_in_expr(body).is_empty() {
+            return self.bail(clos.span(), "closure must not assign outer variables");
+        }
+        if super::analysis::expr_leaves_fn(body) {
+            return self.bail(clos.span(), "`return` / `?` / labelled jumps are not supported in a closure");
+        }
+        self.push_scope(binds);
+        let mut bs: Vec<Stmt> = Vec::new();
+        let rb = self.expr(body, exp, &mut bs);
+        self.pop_scope();
+        let (b, bt) = rb?;
+        Ok((Self::paren_pat(&lp), bs, b, bt))
+    }
+
     /// the place behind a `&mut` argument: `&mut place`, `&mut place[a..b]`, a `&mut` parameter passed on, or a fresh
     /// temporary for `&mut Cursor::new(..)` (a cursor over a buffer keeps writing into that buffer)
     pub fn mut_arg_place(&mut self, a: &syn::Expr, pt: &Ty, stmts: &mut Vec<Stmt>) -> R<Place> {
@@ -1169,7 +1198,8 @@ impl<'g> Cx<'g> {
                     let pl = self.place(&r.expr, stmts)?;
                     let ty = pl.ty();
                     let dflt = match &ty {
-                        Ty::List(_, ListKind::Vec) | Ty::List(_, ListKind::Bytes) => "[]",
+                        // (`Box<[T]>` / `&[T]`: the empty slice)
+                        Ty::List(_, ListKind::Vec) | Ty::List(_, ListKind::Bytes) | Ty::List(_, ListKind::Slice) => "[]",
                         Ty::Int(_) => "0",
                         Ty::Bool => "false",
                         Ty::Opt(_) => "none",
@@ -1412,9 +1442,10 @@ impl<'g> Cx<'g> {
                     stmts.extend(probe);
                     let (k, _) = self.expr(&m.args[0], Some(&kt), stmts)?;
                     let cur = self.read(&pl, stmts)?;
+                    let mns = pl.ty().map_ns();
                     let t = self.fresh();
-                    stmts.push(Stmt::Let(t.clone(), format!("(RustSem.Map.find? {} {})", cur, k)));
-                    self.write(&pl, format!("(RustSem.Map.remove {} {})", cur, k), stmts)?;
+                    stmts.push(Stmt::Let(t.clone(), format!("({mns}.find? {} {})", cur, k)));
+                    self.write(&pl, format!("({mns}.remove {} {})", cur, k), stmts)?;
                     return Ok((t, Ty::Opt(vt)));
                 }
             }
@@ -1430,9 +1461,10 @@ impl<'g> Cx<'g> {
                     let (k, _) = self.expr(&m.args[0], Some(&kt), stmts)?;
                     let (v, _) = self.expr(&m.args[1], Some(&vt), stmts)?;
                     let cur = self.read(&pl, stmts)?;
+                    let mns = pl.ty().map_ns();
                     let t = self.fresh();
-                    stmts.push(Stmt::Let(t.clone(), format!("(RustSem.Map.find? {} {})", cur, k)));
-                    self.write(&pl, format!("(RustSem.Map.insert {} {} {})", cur, k, v), stmts)?;
+                    stmts.push(Stmt::Let(t.clone(), format!("({mns}.find? {} {})", cur, k)));
+                    self.write(&pl, format!("({mns}.insert {} {} {})", cur, k, v), stmts)?;
                     return Ok((t, Ty::Opt(vt)));
                 }
             }
@@ -1558,7 +1590,8 @@ impl<'g> Cx<'g> {
                 Ok((format!("(List.{} {})", if name == "last" { "getLast?" } else { "head?" }, r), Ty::Opt(e.clone())))
             }
             (Ty::List(_, _), "is_empty", 0) => Ok((format!("(RustSem.is_empty {})", r), Ty::Bool)),
-            (Ty::List(e, _), "to_vec", 0) => Ok((r, Ty::List(e.clone(), ListKind::Vec))),
+            (Ty::List(e, _), "to_vec" | "into_vec", 0) => Ok((r, Ty::List(e.clone(), ListKind::Vec))),
+            (Ty::List(e, ListKind::Vec), "into_boxed_slice", 0) => Ok((r, Ty::List(e.clone(), ListKind::Slice))),
             (Ty::List(_, _), "clone" | "as_slice" | "as_ref", 0) => Ok((r, rt.clone())),
             // `x.into()` on an unsigned integer: the same value (`I: Into<uN>` parameters, widening conversions)
             (Ty::Int(w), "into", 0) => match exp {
@@ -1657,6 +1690,57 @@ impl<'g> Cx<'g> {
                     Ok((v, Ty::List(t.clone(), ListKind::Iter)))
                 }
             }
+            (Ty::Dur, "as_secs", 0) => Ok((format!("(RustSem.Duration.as_secs {})", r), Ty::Int(64))),
+            (Ty::Opt(_), "as_ref", 0) => Ok((r, rt.clone())),
+            (Ty::Opt(t), "map", 1) => {
+                let (lp, bs, b, bt) = self.closure1(args[0], t, None)?;
+                if !bs.is_empty() {
+                    return self.bail(args[0].span(), "the closure of `Option::map` must be a pure expression");
+                }
+                Ok((format!("(Option.map (fun {} => {}) {})", lp, b, r), Ty::Opt(Box::new(bt))))
+            }
+            (Ty::List(t, ListKind::Iter), "enumerate", 0) => {
+                Ok((format!("(RustSem.enumerate {})", r), Ty::List(Box::new(Ty::Tuple(vec![Ty::usize(), (**t).clone()])), ListKind::Iter)))
+            }
+            // `find` / `find_map` / `filter_map` / `any` / `position` with a closure: the pure `List` function when the body
+            // is a pure expression, else the monadic primitive of RustSem (same evaluation order and short-circuiting)
+            (Ty::List(t, ListKind::Iter), "find" | "find_map" | "filter_map" | "any" | "position", 1) => {
+                let want = match name.as_str() {
+                    "find" | "any" | "position" => Some(Ty::Bool),
+                    _ => None,
+                };
+                let (lp, bs, b, bt) = self.closure1(args[0], t, want.as_ref())?;
+                let (pure_fn, mon_fn, rty): (String, &str, Ty) = match name.as_str() {
+                    "find" => (format!("(List.find? (fun {} => {}) {})", lp, b, r), "findM", Ty::Opt(t.clone())),
+                    "any" => (format!("(List.any {} (fun {} => {}))", r, lp, b), "anyM", Ty::Bool),
+                    "position" => (format!("(List.findIdx? (fun {} => {}) {})", lp, b, r), "positionM", Ty::Opt(Box::new(Ty::usize()))),
+                    "find_map" => match &bt {
+                        Ty::Opt(_) => (format!("(List.findSome? (fun {} => {}) {})", lp, b, r), "find_mapM", bt.clone()),
+                        _ => return self.bail(args[0].span(), "the closure of `find_map` must return an `Option`"),
+                    },
+                    _ => match &bt {
+                        Ty::Opt(inner) => (
+                            format!("(List.filterMap (fun {} => {}) {})", lp, b, r),
+                            "filter_mapM",
+                            Ty::List(inner.clone(), ListKind::Iter),
+                        ),
+                        _ => return self.bail(args[0].span(), "the closure of `filter_map` must return an `Option`"),
+                    },
+                };
+                if matches!(name.as_str(), "find" | "any" | "position") && !matches!(bt, Ty::Bool) {
+                    return self.bail(args[0].span(), "the closure must be a boolean expression");
+                }
+                if bs.is_empty() {
+                    Ok((pure_fn, rty))
+                } else {
+                    let v = self.fresh();
+                    stmts.push(Stmt::Bind(
+                        v.clone(),
+                        Doc::Lam(format!("RustSem.{} {}", mon_fn, r), format!("fun {}", lp), Box::new(Doc::seq(bs, Doc::atom(format!("pure {}", b))))),
+                    ));
+                    Ok((v, rty))
+                }
+            }
             (Ty::List(t, ListKind::Iter), "map", 1) => {
                 // `iter.map(|pat| e)` with a closure whose body is a pure expression
                 let (cpat, body) = match args[0] {
@@ -1713,12 +1797,14 @@ impl<'g> Cx<'g> {
             (Ty::Opt(_), "is_some", 0) => Ok((format!("(Option.isSome {})", r), Ty::Bool)),
             (Ty::Opt(_), "is_none", 0) => Ok((format!("(Option.isNone {})", r), Ty::Bool)),
             (Ty::Map(kt, _, _), "contains_key", 1) => {
+                let mns = rt.map_ns();
                 let (k, _) = self.expr(args[0], Some(kt), stmts)?;
-                Ok((format!("(RustSem.Map.contains_key {} {})", r, k), Ty::Bool))
+                Ok((format!("({mns}.contains_key {} {})", r, k), Ty::Bool))
             }
             (Ty::Map(kt, vt, _), "get", 1) => {
+                let mns = rt.map_ns();
                 let (k, _) = self.expr(args[0], Some(kt), stmts)?;
-                Ok((format!("(RustSem.Map.find? {} {})", r, k), Ty::Opt(vt.clone())))
+                Ok((format!("({mns}.find? {} {})", r, k), Ty::Opt(vt.clone())))
             }
             (Ty::Map(kt, vt, false), "first_key_value", 0) => {
                 Ok((format!("(RustSem.Map.first? {})", r), Ty::Opt(Box::new(Ty::Tuple(vec![(**kt).clone(), (**vt).clone()])))))
